@@ -223,9 +223,11 @@ class VarBytesColumn(Column):
 
         def finish(self, doccount):
             dbfile = self._dbfile
+            self.fill(doccount)
+            # Get the arrays after filling: appending to a GrowableArray can
+            # replace its underlying array with one of a wider type
             lengths = self._lengths.array
             offsets = self._offsets.array
-            self.fill(doccount)
 
             dbfile.write_array(lengths)
 
